@@ -382,12 +382,13 @@ def run(model, R):
     R.floor('AGREEMENT', 20)
     R.floor('PICKLE', 8)
     R.floor('PICKLE-DEPTH', 1)
+    from . import c06, c12, c19
     R.guard('AGREEMENT', None, '_tolist/_fromlist', tolist_fromlist, model, R)
     R.guard('AGREEMENT', None, 'todict/fromdict', dict_keys, model, R)
     R.guard('AGREEMENT', None, 'literal/json', literal_and_json, model, R)
+    R.guard('FIDELITY', None, 'python-literal labels', c12.literal_labels, model, R)
     R.guard('PICKLE', None, 'pickle', pickle_rules, model, R)
     # reloading depends on: the raw/ordered paths of _fromlist (C06's obligations) and fromdict accepting every valid document (C19's)
-    from . import c06, c19
     from .common import flag_clobber
     R.guard('ORDER', None, '_fromlist paths', c06.fromlist_rules, model, R)
     R.guard('GUARD', None, 'fromdict validation', c19.fromdict_rules, model, R)
